@@ -5,3 +5,4 @@ import Proofs.C12
 import Proofs.C13
 import Proofs.C14
 import Proofs.C16
+import Proofs.C17
